@@ -63,6 +63,12 @@ def run_one(patch, seed, with_tests=False):
         res["scenarios"] = int(m.group(1)) if m else None
         res["first"] = c.stdout.splitlines()[:4]
         res["status"] = "caught" if c.returncode == 1 and any(f"property={prop} " in ln for ln in lines) else "MISSED"
+        meta_path = os.path.join(os.path.dirname(patch), "meta.json")
+        if res["status"] == "MISSED" and os.path.basename(patch) == "patch.diff" and os.path.exists(meta_path):
+            why = json.load(open(meta_path)).get("accepted_miss")
+            if why and c.returncode == 0:
+                res["status"] = "missed-as-recorded"
+                res["accepted_miss"] = why
         if res["status"] == "MISSED":
             res["stderr"] = c.stderr[-1500:]
         return res
@@ -94,4 +100,4 @@ def main(seed=0):
             r["suite_rc"], r["suite_tail"] = keep["suite_rc"], keep.get("suite_tail")
         prev[r["mutant"]] = r
     json.dump([prev[k] for k in sorted(prev)], open(out, "w"), indent=1)
-    return 0 if all(r.get("status") == "caught" for r in results) else 1
+    return 0 if all(r.get("status") in ("caught", "missed-as-recorded") for r in results) else 1
